@@ -10,7 +10,7 @@ BAD=0
 for S in $SEEDS; do
   for ID in $IDS; do
     rm -f evidence/$ID.json
-    OUT=$(VERIF_SEED=$S ./check $ID quick 2>&1); RC=$?
+    OUT=$(VERIF_STRICT_CLASSES=1 VERIF_SEED=$S ./check $ID quick 2>&1); RC=$?
     if [ $RC -ne 0 ]; then BAD=1; echo "seed=$S $ID exit=$RC"; echo "$OUT" | grep -a -v "^KNOWN" | cut -c1-500 | head -5; fi
     python3-vt - "$ID" <<'PY' || BAD=1
 import json, sys, jsonschema
